@@ -18,7 +18,7 @@ RULE = {"C18": "units: all 64 ordered triples of the four defined units x a valu
                "(sensor, reading, parameters)."}
 REQUIRED = {"C18": {"triple-checked": 64, "user-chain-checked": 300, "named-ratio": 3, "sonar-pulse": 400, "sonar-analog": 400, "sonar-user-defined-output-unit": 100,
                     "pressure-positive": 400, "pressure-floor": 20, "pressure-never-raises": 400, "pressure-vcc-zero": 5,
-                    "calibrate-roundtrip": 300, "user-chain-deeper-than-10": 100, "sonar-same-raw-reading-as-previous-sonar": 300}}
+                    "calibrate-roundtrip": 300, "user-chain-deeper-than-10": 100, "user-chain-deeper-than-1000": 10, "sonar-same-raw-reading-as-previous-sonar": 300}}
 ASSUMPTIONS = {"C18": ["results whose exact rational value lies outside [1e-290, 1e290] are not compared (overflow/underflow is 'floating-point rounding')",
                        "Counter.getPeriod has no simulator setter: the driver's counter attribute is replaced by a stub with getPeriod(), as the repository's own test does"]}
 
@@ -78,7 +78,8 @@ def build_units(rng, units_mod, spec=None):
         else:
             p = out[parent]
             unit = U.Unit(base_unit=p.unit, base_to_unit=(lambda x, k=k: x / k), unit_to_base=(lambda x, k=k: x * k))
-            out.append(Chain(unit, p.factor * Fraction(k), p.root, p.depth + 1, f"{p.desc}*{k!r}"))
+            desc = f"{p.desc}*{k!r}" if p.depth < 30 else f"{p.desc.split('*')[0]}*<{p.depth + 1} factors>"
+            out.append(Chain(unit, p.factor * Fraction(k), p.root, p.depth + 1, desc))
     return out, plan
 
 
@@ -136,7 +137,7 @@ def run_units_case(acc, U, case):
         return case
     # random user-defined chains (same root only)
     for _ in range(case.get("reps", 12)):
-        a = rng.choice(chains)
+        a = rng.choice(chains) if not case.get("deep_only") else rng.choice(chains[-3:] + chains[:4])
         same = [c for c in chains if c.root == a.root]
         b = rng.choice(same)
         c = rng.choice(same)
@@ -151,23 +152,32 @@ def run_units_case(acc, U, case):
             acc.ev("user-chain-deep")
         if max(a.depth, b.depth) > 10:
             acc.ev("user-chain-deeper-than-10")
+        if max(a.depth, b.depth) > 1000:
+            acc.ev("user-chain-deeper-than-1000")
         e = Fraction(x) * a.factor / b.factor
         if not _in_range(e) or not _in_range(e * k):
             continue
         tol = 32 * (a.depth + b.depth + c.depth + 2)
         acc.checks += 4
-        if not _rel(U.convert(b.unit, c.unit, ab), U.convert(a.unit, c.unit, x), tol):
-            acc.violation("C18/composition", f"{a.desc}->{b.desc}->{c.desc} of {x!r} differs from the direct conversion", case, {})
-        if not _rel(U.convert(b.unit, a.unit, ab), x, tol):
-            acc.violation("C18/roundtrip", f"{a.desc}->{b.desc}->{a.desc} of {x!r} = {U.convert(b.unit, a.unit, ab)!r}", case, {})
-        if not _rel(U.convert(a.unit, b.unit, k * x), k * ab, tol):
-            acc.violation("C18/homogeneity", f"convert({a.desc}->{b.desc}) is not homogeneous at {x!r} * {k}", case, {})
-        s1 = U.convert(a.unit, b.unit, x + y)
-        s2 = ab + U.convert(a.unit, b.unit, y)
-        scale = max(abs(ab), abs(s2 - ab), 1e-300)
-        if abs(s1 - s2) > tol * ULP * scale * 4:
-            acc.violation("C18/additivity", f"convert({a.desc}->{b.desc}) is not additive at {x!r} + {y!r}: {s1!r} vs {s2!r}", case, {})
+        try:
+            _algebra(acc, U, a, b, c, x, y, k, ab, tol, case)
+        except Exception as ex:  # noqa
+            acc.violation("C18/convert-raised", f"convert() between {a.desc}, {b.desc}, {c.desc} raised {ex!r}", case, {})
     return case
+
+
+def _algebra(acc, U, a, b, c, x, y, k, ab, tol, case):
+    if not _rel(U.convert(b.unit, c.unit, ab), U.convert(a.unit, c.unit, x), tol):
+        acc.violation("C18/composition", f"{a.desc}->{b.desc}->{c.desc} of {x!r} differs from the direct conversion", case, {})
+    if not _rel(U.convert(b.unit, a.unit, ab), x, tol):
+        acc.violation("C18/roundtrip", f"{a.desc}->{b.desc}->{a.desc} of {x!r} = {U.convert(b.unit, a.unit, ab)!r}", case, {})
+    if not _rel(U.convert(a.unit, b.unit, k * x), k * ab, tol):
+        acc.violation("C18/homogeneity", f"convert({a.desc}->{b.desc}) is not homogeneous at {x!r} * {k}", case, {})
+    s1 = U.convert(a.unit, b.unit, x + y)
+    s2 = ab + U.convert(a.unit, b.unit, y)
+    scale = max(abs(ab), abs(s2 - ab), 1e-300)
+    if abs(s1 - s2) > tol * ULP * scale * 4:
+        acc.violation("C18/additivity", f"convert({a.desc}->{b.desc}) is not additive at {x!r} + {y!r}: {s1!r} vs {s2!r}", case, {})
 
 
 def _rel(a, b, ulps):
@@ -354,6 +364,14 @@ def run_shard(spec):
         c = run_units_case(acc, U, {"mode": "units", "kind": "triples", "cseed": 0, "plan": []})
         acc.extra["exhaustive"] = True
         acc.extra["exhaustive_space"] = "64 ordered triples of the four defined units x 20 values"
+        # "chains of any depth": far deeper than the interpreter's recursion limit (factors pair up, so values stay in range)
+        for depth in (1100, 2600, 5200):
+            parent, plan = rng.randrange(0, 4), []
+            for j in range(depth):
+                plan.append([parent, (2.0, 0.5, 0.25, 4.0)[(j + (j // 2) % 2 * 2) % 4] if j % 7 else (2.0, 0.5)[j // 7 % 2]])
+                parent = 4 + j
+            vd = {"mode": "units", "kind": "chains", "cseed": rng.randrange(1 << 30), "plan": plan, "reps": 8, "deep_only": True}
+            run_units_case(acc, U, vd)
         recent = []
         for i in range(spec["n"]):
             case = {"mode": "units", "kind": "chains", "cseed": rng.randrange(1 << 30)}
